@@ -125,6 +125,63 @@ def fft_cases(ctx):
                     ctx.fail("corr", "one-sided doubling of bin %d != model" % b, dict(level="bins", n=n), impl=[float(v), float(full_by_bin[b])], model=d)
 
 
+def long_transforms(ctx):
+    """the one-sided doubling for LONG transforms (bin spacing fs/n far below any relative tolerance): every strictly positive
+    non-Nyquist bin - decided by integer bin arithmetic, 0 < k and 2k != n - is doubled, the others are not"""
+    npr = np.random.RandomState(ctx.seed + 1919)
+    for L, n, fs in ((2000, 2**18, 1000.0), (2000, 2**18 + 1, 1000.0), (1500, 200001, 250.0), (300001, None, 500.0), (4000, 300000, 30000.0),
+                     # frequency step below 1e-6 Hz (slow signals, long zero padding): no absolute margin is small enough
+                     (100, 2**21, 1.0), (20000, None, 0.01), (20001, None, 0.01)):
+        x = npr.randn(L)
+        sig = nap.Tsd(np.arange(L) / fs, x)
+        inp = dict(level="long-transform", length=L, n=n, fs=fs)
+        ctx.case(("long", L, n, fs), inp)
+        kw = {} if n is None else dict(n=n)
+        nn = L if n is None else n
+        P1 = nap.compute_power_spectral_density(sig, fs=fs, full_range=False, **kw)
+        Pf = nap.compute_power_spectral_density(sig, fs=fs, full_range=True, **kw)
+        kf = np.rint(Pf.index.values * nn / fs).astype(np.int64)
+        k1 = np.rint(P1.index.values * nn / fs).astype(np.int64)
+        if list(k1) != list(kf[kf >= 0]):
+            ctx.fail("oracle", "one-sided PSD rows are not the non-negative bins of the full range (n=%d)" % nn, inp, impl=[int(k1[0]), int(k1[-1]), len(k1)])
+            continue
+        full = Pf.values.ravel()[kf >= 0]
+        factor = np.where((k1 > 0) & (2 * k1 != nn), 2.0, 1.0)
+        bad = np.nonzero(~np.isclose(P1.values.ravel(), factor * full, rtol=1e-9, atol=0.0))[0]
+        if len(bad):
+            ctx.fail("oracle", "one-sided PSD: bin %d of %d (f=%.6f) is x%.3f of the full-range value, expected x%d" %
+                     (int(k1[bad[-1]]), nn, float(P1.index.values[bad[-1]]), float(P1.values.ravel()[bad[-1]] / full[bad[-1]]), int(factor[bad[-1]])),
+                     dict(inp, bad_bins=[int(v) for v in k1[bad][:8]]))
+        # Parseval on the full range for the long transform
+        xn = np.zeros(nn); xn[:min(L, nn)] = x[:min(L, nn)]
+        if not np.isclose(Pf.values.sum() * (fs / nn), (xn ** 2).mean(), rtol=1e-9):
+            ctx.fail("oracle", "Parseval fails for the long transform", inp)
+
+
+def long_mean_psd(ctx):
+    """the same one-sided doubling rule for compute_mean_power_spectral_density with long / slowly sampled segments"""
+    npr = np.random.RandomState(ctx.seed + 1920)
+    for L, N, fs in ((45000, 20000, 0.01), (45000, 20001, 0.01), (600000, 262144, 1000.0)):
+        sig = nap.Tsd(np.arange(L) / fs, npr.randn(L))
+        inp = dict(level="long-mean-psd", length=L, segment_samples=N, fs=fs)
+        ctx.case(("longmean", L, N, fs), inp)
+        P1 = nap.compute_mean_power_spectral_density(sig, N / fs, fs=fs, full_range=False)
+        Pf = nap.compute_mean_power_spectral_density(sig, N / fs, fs=fs, full_range=True)
+        nn = len(Pf)
+        kf = np.rint(Pf.index.values * nn / fs).astype(np.int64)
+        k1 = np.rint(P1.index.values * nn / fs).astype(np.int64)
+        if list(k1) != list(kf[kf >= 0]):
+            ctx.fail("oracle", "one-sided mean PSD rows are not the non-negative bins of the full range", inp, impl=[len(k1), len(kf)])
+            continue
+        full = Pf.values.ravel()[kf >= 0]
+        factor = np.where((k1 > 0) & (2 * k1 != nn), 2.0, 1.0)
+        bad = np.nonzero(~np.isclose(P1.values.ravel(), factor * full, rtol=1e-9, atol=0.0))[0]
+        if len(bad):
+            ctx.fail("oracle", "one-sided mean PSD: bin %d of %d is x%.3f of the full-range value, expected x%d" %
+                     (int(k1[bad[-1]]), nn, float(P1.values.ravel()[bad[-1]] / full[bad[-1]]), int(factor[bad[-1]])),
+                     dict(inp, bad_bins=[int(v) for v in k1[bad][:8]]))
+
+
 def mean_psd_cases(ctx, n_cases):
     rng = ctx.rng
     npr = np.random.RandomState(ctx.seed + 191)
@@ -202,6 +259,8 @@ def mean_psd_cases(ctx, n_cases):
 
 def run(ctx):
     fft_cases(ctx)
+    long_transforms(ctx)
+    long_mean_psd(ctx)
     mean_psd_cases(ctx, 150 if ctx.quick else 2000)
 
 
